@@ -402,8 +402,8 @@ func VH_C18_EveryFrame(nfr, bad int) {
 		}
 		sig.Stack.Calls = append(sig.Stack.Calls, c)
 	}
-	cb := Call{RemoteSrcPath: "/gp/src/c/c.go"}
-	sig.CreatedBy.Calls = []Call{cb}
+	// creator chain: one frame under the remote GOROOT, one under the remote GOPATH
+	sig.CreatedBy.Calls = []Call{{RemoteSrcPath: "/gr/src/c/c.go"}, {RemoteSrcPath: "/gp/src/c/c.go"}}
 	ok := sig.updateLocations("/gr", "/LR", map[string]string{}, map[string]string{"/gp": "/LP"})
 	vReach("signature rebased")
 	vAssert(!ok, "an unresolved frame is reported")
@@ -416,7 +416,8 @@ func VH_C18_EveryFrame(nfr, bad int) {
 			vAssert(vAnd(c.RelSrcPath == rels[i], c.Location == GOPATH), "a frame under the remote GOPATH gets its relative path and class whatever its neighbours are")
 		}
 	}
-	vAssert(sig.CreatedBy.Calls[0].LocalSrcPath == "/LP/src/c/c.go", "the creator frame is rebased")
+	vAssert(sig.CreatedBy.Calls[0].LocalSrcPath == "/LR/src/c/c.go" && sig.CreatedBy.Calls[0].Location == Stdlib, "a creator frame under the remote GOROOT is rebased onto the local GOROOT")
+	vAssert(sig.CreatedBy.Calls[1].LocalSrcPath == "/LP/src/c/c.go" && sig.CreatedBy.Calls[1].Location == GOPATH, "a creator frame under the remote GOPATH is rebased onto the local GOPATH")
 }
 
 // VH_C18_SiblingRoots: root detection with a remote GOROOT and a remote GOPATH
